@@ -50,6 +50,9 @@ class Ctl:
         self.cur_batch = None  # ghost: global index of the batch whose update() is running (set by the driver)
         self.last_src = None  # ghost: source batch of the message the agent received last
         self.blocked_at_end = []
+        self.no_start = False  # set by the driver around a start_session() that has to be rejected: a thread start then ends the run
+        self.spurious_started = False
+        self.force_m = False
 
     # ---- decisions
     def enabled(self):
@@ -63,6 +66,11 @@ class Ctl:
     def decide(self):
         """Pick the thread that performs its pending operation next; None = nobody can (abort everything)."""
         en = self.enabled()
+        if self.force_m and "M" in en:
+            # a request that has to be rejected is run without letting the agent thread in between (its one flag read commutes
+            # with everything the agent does); the steps are recorded with M as the only choice and deleted before the
+            # comparison with the model
+            en = ["M"]
         mask = sum(BIT[t] for t in en)
         if not en:
             self.deadlock = True
@@ -193,6 +201,11 @@ class VThread:
     def start(self):
         c = self._c()
         c.yield_point("start")
+        if c.no_start:
+            # a second agent thread while one is running: the request should have been rejected; the run stops here
+            c.spurious_started = True
+            c._abort_all()
+            raise Abort
 
         def body():
             threading.current_thread().vname = "A"
